@@ -474,6 +474,21 @@ func (ch c13) runRows(c *core.Ctx, env *hs.Env, rng *core.Rng, idx int) {
 	term := core.Pick(rng, []string{"done", "fail", "fail", "query", "parse", "unknown"})
 	handler := core.Pick(rng, []string{"propagate", "propagate", "swallow"})
 	exec := rng.Intn(3) == 0
+	if _, ends := t.encode(); term != "done" && len(ends) > 0 && !t.NoHeader && rng.Intn(3) == 0 {
+		// the abort arrives while a row is incomplete (behind its field count, inside a length word or a value):
+		// the rows before it, then the abort - reported once
+		k := rng.Intn(len(ends))
+		from := t.hdrLen()
+		if k > 0 {
+			from = ends[k-1]
+		}
+		if ends[k]-from > 2 {
+			whole, _ := t.encode()
+			stream = whole[:from+2+rng.Intn(ends[k]-from-2)]
+			t.Rows, t.Trailer = t.Rows[:k], false
+			c.Count("row_reader_streams_aborted_inside_a_row", 1)
+		}
+	}
 	sig := fmt.Sprintf("rows cols=%d rows=%d trailer=%v exec=%v h=%s %s", len(t.OIDs), len(t.Rows), t.Trailer, exec, handler, term)
 	cs := map[string]any{"case": sig}
 	viol := func(rule, s, detail string) {
